@@ -59,7 +59,7 @@ theorem run_tx_all_or_nothing (succ : Db → Stmt → Res) (db : Db) (r : Req)
     have h := genLoop_open_ok succ true true c c pre (f :: post) hnpre hp
     obtain ⟨hrun, hne⟩ := fails_sqlRun ⟨c, some (c ++ writes pre)⟩ f hf
     rw [he, h, genLoop_fail_stop succ true _ f post hrun hne]
-    simp [rollbackIgnore, sqlRun]
+    simp [rollback_failEffect]
 
 /-- A request marked as a transaction applies all of its writes or none of them, on
 both paths: if any statement fails the database is exactly as before, otherwise every
@@ -103,7 +103,7 @@ theorem run_rollback_on_error (succ : Db → Stmt → Res) (db : Db) (r : Req)
   rw [hsplit, genLoop_open_ok succ true false _ _ b1 _ hnb1 hp]
   obtain ⟨hrun, hne⟩ := fails_sqlRun ⟨c ++ writes pre, some (c ++ writes pre ++ writes b1)⟩ f hf
   rw [genLoop_fail_stop succ false _ f _ hrun hne]
-  simp [rollbackIgnore, sqlRun]
+  simp [rollback_failEffect]
 
 /-- A request that asks for rollback on error and opens an explicit transaction
 (`… BEGIN; body…; …`, the shape /db/load sends) leaves no effect of that transaction
@@ -199,7 +199,7 @@ theorem run_stops (succ : Db → Stmt → Res) (db : Db) (r : Req) (pre post : L
   rw [genLoop_open_ok succ true true c c pre (f :: post) hn hok]
   obtain ⟨hrun, hne⟩ := fails_sqlRun ⟨c, some (c ++ writes pre)⟩ f hf
   rw [genLoop_fail_stop succ true _ f post hrun hne]
-  simp [rollbackIgnore, sqlRun]
+  simp [rollback_failEffect]
 
 /-- Execution stops at the first failure inside a transaction: with `pre` the
 statements before the first failing statement `f`, the results are those of `pre`
